@@ -28,15 +28,15 @@ func (o *c15Obj) MarshalBinary() ([]byte, error) { return json.Marshal(o) }
 func (o *c15Obj) UnmarshalBinary(b []byte) error { return json.Unmarshal(b, o) }
 
 type c15Op struct {
-	Op      string `json:"op"` // create put replace delete get list
-	ID      string `json:"id,omitempty"`
-	Kind    string `json:"kind,omitempty"`
-	Val     int    `json:"val,omitempty"`
-	Index   string `json:"index,omitempty"`
-	Pattern string `json:"pattern,omitempty"`
-	Offset  int    `json:"offset,omitempty"`
-	Limit   int    `json:"limit,omitempty"`
-	Reverse bool   `json:"reverse,omitempty"`
+	Op      string  `json:"op"` // create put replace delete get list
+	ID      string  `json:"id,omitempty"`
+	Kind    string  `json:"kind,omitempty"`
+	Val     int     `json:"val,omitempty"`
+	Index   string  `json:"index,omitempty"`
+	Pattern string  `json:"pattern,omitempty"`
+	Offset  int     `json:"offset,omitempty"`
+	Limit   int     `json:"limit,omitempty"`
+	Reverse bool    `json:"reverse,omitempty"`
 	Sub     []c15Op `json:"in_one_transaction,omitempty"` // op "tx": several writes committed (or rejected) together
 }
 
